@@ -273,8 +273,9 @@ namespace sqf::parser::sqf
                     while (true)
                     {
                         if (is_match<'\''>(iter) && is_match<'\''>(iter + 1))
-                        {
+                        { // a doubled delimiter stands for one character of the string but takes two columns
                             ++iter;
+                            m_column++;
                         }
                         else if (is_match<'\''>(iter))
                         {
@@ -311,8 +312,9 @@ namespace sqf::parser::sqf
                     while (true)
                     {
                         if (is_match<'"'>(iter) && is_match<'"'>(iter + 1))
-                        {
+                        { // a doubled delimiter stands for one character of the string but takes two columns
                             ++iter;
+                            m_column++;
                         }
                         else if (is_match<'"'>(iter))
                         {
